@@ -312,6 +312,11 @@ func parseMsgPipelineRcptCfg(globals map[string]interface{}, nodes []config.Node
 			return nil, config.NodeErr(node, "invalid directive")
 		}
 	}
+	if len(rcpt.targets) == 0 && rcpt.rejectErr == nil {
+		// Recipients matched by such block would be accepted and then
+		// silently dropped.
+		return nil, fmt.Errorf("msgpipeline: block without deliver_to, reroute or reject, use 'reject' to reject messages")
+	}
 	return &rcpt, nil
 }
 
